@@ -684,8 +684,28 @@ func (e *FuncEnc) encodeAppend(in ssa.Instruction, c *ssa.CallCommon, args []str
 			// direct instance for single-element appends
 			e.emit(fmt.Sprintf("(assert (=> (>= %s 1) (= (select %s %s) (select %s %s))))", tlen, nu, strings.ReplaceAll(cellRJ, " j)", " 0)"), old, strings.ReplaceAll(cellT, " j)", " 0)")))
 		}
+		// the same two facts keyed by the cell address (no arithmetic in the trigger): a cell of the
+		// result array below / at or above the old length holds the old element / the appended one
+		{
+			ra := lf.root("a")
+			idx := sx("elem_idx", ra)
+			inR := and(eq(sx("akind", ra), "1"), eq(sx("elem_base", ra), rb), eq("a", lf.addr(sx("elem", rb, idx))))
+			oldCell := lf.addr(sx("elem", sb, sx("+", so, sx("-", idx, ro))))
+			e.emit(fmt.Sprintf("(assert (forall ((a Int)) (! (=> (and %s (<= %s %s) (< %s (+ %s (sl_len %s)))) (= (select %s a) (select %s %s))) :pattern ((select %s a)))))", inR, ro, idx, idx, ro, s, nu, old, oldCell, nu))
+			if _, isStr := c.Args[1].Type().Underlying().(*types.Basic); !isStr {
+				tb, to := sx("sl_base", t), sx("sl_off", t)
+				srcCell := lf.addr(sx("elem", tb, sx("+", to, sx("-", idx, sx("+", ro, sx("sl_len", s))))))
+				e.emit(fmt.Sprintf("(assert (forall ((a Int)) (! (=> (and %s (<= (+ %s (sl_len %s)) %s) (< %s (+ %s (sl_len %s) %s))) (= (select %s a) (select %s %s))) :pattern ((select %s a)))))", inR, ro, s, idx, idx, ro, s, tlen, nu, old, srcCell, nu))
+			}
+		}
 		// everything that is not an element cell of the result array is unchanged
-		e.emit(fmt.Sprintf("(assert (forall ((a Int)) (! (=> (not (= (elem_base %s) %s)) (= (select %s a) (select %s a))) :pattern ((select %s a)))))", lf.root("a"), rb, nu, old, nu))
+		// (precisely: unless a is this very leaf of an element of the result array; other leaves
+		// of the same elements living in the same heap are written by their own step)
+		{
+			ra := lf.root("a")
+			isCell := and(eq("a", lf.addr(ra)), eq(sx("akind", ra), "1"), eq(sx("elem_base", ra), rb))
+			e.emit(fmt.Sprintf("(assert (forall ((a Int)) (! (=> (not %s) (= (select %s a) (select %s a))) :pattern ((select %s a)))))", isCell, nu, old, nu))
+		}
 		e.preservePrivate(lf.key, old, nu)
 	}
 }
